@@ -125,6 +125,15 @@ func skipDisk(p string) bool { return isHarnessSource(p) }
 // RunWorld executes the world and returns the first violation, if any.
 func RunWorld(env *Env, w *World) *Outcome {
 	out := runWorld(env, w)
+	if out.Infra != "" && strings.Contains(out.Infra, "timed out") && env.Bins.TimeoutSec < 200 {
+		// a lifetime normally takes milliseconds; a time-out without a goroutine provably
+		// parked on a go-snaps lock is a loaded machine: run the world once more, patiently
+		b2 := *env.Bins
+		b2.TimeoutSec = 300
+		e2 := *env
+		e2.Bins = &b2
+		out = runWorld(&e2, w)
+	}
 	if w.Differential == "record-order" && out.Infra == "" && out.Viol == nil && len(out.Stats.Sorted) > 0 {
 		// the same history, recorded in another order: what Clean's sort leaves must not depend on it
 		b, _ := json.Marshal(w)
@@ -167,6 +176,7 @@ func RunWorld(env *Env, w *World) *Outcome {
 		var w2 World
 		json.Unmarshal(b, &w2)
 		l := w2.Lifetimes[len(w2.Lifetimes)-1]
+		l.Shuffle = 0 // the warm-up test must run first
 		warm := &scen.TestNode{Name: "Test0Warm", Site: 0}
 		id := 900000
 		for ci := len(l.Configs) - 1; ci >= -1; ci-- {
